@@ -364,6 +364,12 @@ impl ArrayImpl {
                 sqlparser::ast::DateTimeField::Day => {
                     A::new_int32(unary_op(a.as_ref(), |d| d.day()))
                 }
+                // (a date is the midnight of its day)
+                sqlparser::ast::DateTimeField::Hour
+                | sqlparser::ast::DateTimeField::Minute
+                | sqlparser::ast::DateTimeField::Second => {
+                    A::new_int32(unary_op(a.as_ref(), |_| 0))
+                }
                 f => {
                     return Err(ConvertError::NoUnaryOp(
                         format!("extract {f} from"),
